@@ -160,7 +160,15 @@ func (c *Ctx) Finish(verifDir string, controls []controlExpect, start time.Time,
 			c.add("FRAMEWORK.CONTROL", ce.Rule+" control "+ce.Name, "-", Undecided, why, "")
 		}
 	}
-	// floors
+	// floors: explicit ones from the rules, completed by the frozen table
+	for k, v := range defaultFloors {
+		parts := strings.SplitN(k, " ", 2)
+		if len(parts) == 2 && parts[0] == c.Prop {
+			if cur, ok := c.floors[parts[1]]; !ok || cur < v {
+				c.floors[parts[1]] = v
+			}
+		}
+	}
 	for rule, floor := range c.floors {
 		if c.counts[rule] < floor {
 			c.add("FRAMEWORK.FLOOR", rule, "-", Undecided,
